@@ -418,6 +418,16 @@ func runHistory(h history) (interface{}, error) {
 	return obs{"strs": strs, "kec": kec, "obs": out}, nil
 }
 
+// safeRun turns a malformed header (bad hex in the universe) into a rejected line
+func safeRun(h history) (res interface{}, err error) {
+	defer func() {
+		if r := recover(); r != nil {
+			res, err = obs{"bad": true}, nil
+		}
+	}()
+	return runHistory(h)
+}
+
 func main() {
 	cmds := map[string]func(args []string) error{}
 	cmds["ledger"] = func(args []string) error {
@@ -426,7 +436,7 @@ func main() {
 			if err := json.Unmarshal(line, &h); err != nil {
 				return obs{"bad": true}, nil
 			}
-			return runHistory(h)
+			return safeRun(h)
 		})
 	}
 	cmds["merkle"] = func(args []string) error {
